@@ -9,6 +9,7 @@ import (
 	"strconv"
 	"strings"
 
+	"github.com/MichaelMure/git-bug/repository"
 	"github.com/MichaelMure/git-bug/util/lamport"
 )
 
@@ -18,6 +19,7 @@ type c05pStep struct {
 }
 type c05pInput struct {
 	Steps []c05pStep `json:"steps"`
+	Impl  string     `json:"impl,omitempty"` // "" = PersistedClock over a traced filesystem | "mock" = the mock repository's clocks | "mem" = MemClock
 }
 
 type c05pDriver struct{}
@@ -63,6 +65,17 @@ func (c05pDriver) Gen(r *Rand, tier string) []json.RawMessage {
 			}
 		}
 		in.Steps = append(in.Steps, c05pStep{K: "reload"})
+		if c%5 == 4 {
+			// the in-memory implementations: no restart, no storage
+			in.Impl = []string{"mock", "mem"}[(c/5)%2]
+			var keep []c05pStep
+			for _, st := range in.Steps {
+				if st.K == "inc" || st.K == "witness" {
+					keep = append(keep, st)
+				}
+			}
+			in.Steps = keep
+		}
 		res = append(res, mustJSON(in))
 	}
 	return res
@@ -72,6 +85,36 @@ func (c05pDriver) Run(raw json.RawMessage) Case {
 	var in c05pInput
 	if err := json.Unmarshal(raw, &in); err != nil {
 		return Case{Skip: "bad input"}
+	}
+	if in.Impl == "mock" || in.Impl == "mem" {
+		var inc func() (lamport.Time, error)
+		var wit func(lamport.Time) error
+		var now func() lamport.Time
+		if in.Impl == "mock" {
+			mr := repository.NewMockRepoClock()
+			inc = func() (lamport.Time, error) { return mr.Increment("x") }
+			wit = func(t lamport.Time) error { return mr.Witness("x", t) }
+			now = func() lamport.Time {
+				c, _ := mr.GetOrCreateClock("x")
+				return c.Time()
+			}
+		} else {
+			mc := lamport.NewMemClock()
+			inc, wit, now = mc.Increment, mc.Witness, mc.Time
+		}
+		var terms []string
+		for _, st := range in.Steps {
+			switch st.K {
+			case "inc":
+				t, err := inc()
+				terms = append(terms, fmt.Sprintf("mkpstep PInc 0%%N %s %d%%N %d%%N (Some %d%%N)", coqBool(err == nil), uint64(t), uint64(now()), uint64(now())))
+			case "witness":
+				err := wit(lamport.Time(st.V))
+				terms = append(terms, fmt.Sprintf("mkpstep PWitness %d%%N %s 0%%N %d%%N (Some %d%%N)", st.V, coqBool(err == nil), uint64(now()), uint64(now())))
+			}
+		}
+		return Case{Coq: "mkcase5p " + coqList(terms), Obs: map[string]interface{}{"steps": len(terms), "impl": in.Impl}, Tags: []string{"impl:" + in.Impl},
+			NonTrivial: len(terms) > 3, Key: string(raw)}
 	}
 	fs := newTraceFS()
 	const path = "clocks/x"
